@@ -4,6 +4,7 @@ from ir import Inst, Const, strip_casts
 import paths as P
 from paths import ptr_key, is_const
 import ownership as O
+import decoder_rules as DR
 import tables
 import rules
 from props.c06 import check_balance
@@ -190,6 +191,9 @@ def run(ctx, chk):
 
     # ---- (B) release ---------------------------------------------------------------
     check_release(chk, prog, eff, cache, ctors, off)
+    chk.rule("C04.covered", "a slot that receives a counted reference lies below the container's element count when the writing "
+                            "function returns (the release routine walks exactly [0, count))")
+    check_covered(chk, "C04.covered", prog, eff, cache)
 
     # ---- (C) library as client ------------------------------------------------------
     check_balance(chk, "C04.client", prog, eff, cache, N, B, ctors, floor=60)
@@ -411,6 +415,64 @@ def check_release(chk, prog, eff, cache, ctors, off, R="C04.release", RX="C04.re
     chk.ob(RX, "release switch covers every cbor_type", not missing, where, fn=f.name,
            detail="no arm for %s" % missing if missing else "")
     chk.floor(R, "zero-count paths", nz, 14)
+
+
+def check_covered(chk, rule, prog, eff, cache, floor=4):
+    """Release coverage: the release routine walks the slots [0, count) of a container (C04.release), so a slot that
+    receives a counted reference must lie below the element count when the writing function returns.  For every path
+    of every library function that stores a value into an indexed slot of a table and takes a reference to that
+    value: the index i was read from a count location whose value at return is i + 1 (or more), or i is count - 1, or
+    i < (something read from the container) is a fact of the path."""
+    off_rc = prog.field_offset("cbor_item_t", "refcount")
+    n = 0
+
+    def plus1(i):
+        return (("op", "add", "i64", ("c", 1), i), ("op", "add", "i64", i, ("c", 1)))
+
+    for f in prog.lib_funcs():
+        if f.name in ("cbor_decref", "cbor_incref", "cbor_intermediate_decref", "cbor_move"):
+            continue
+        where = "%s:%d" % (f.file, f.line)
+        for k, pa in enumerate(cache.get(f.name, inline_static=True)):
+            st = pa.st
+            taken = {e.args[0] for e in pa.events if e.kind == "call" and e.callee == "cbor_incref"}
+            taken |= {ptr_key(e.args[0])[0] for e in pa.events if e.kind == "store" and O.refcount_delta(off_rc, e) == 1}
+            if not taken:
+                continue
+            for e in pa.events:
+                if e.kind != "store" or e.args[1] not in taken:
+                    continue
+                b, _o = ptr_key(e.args[0])
+                if not (isinstance(b, tuple) and b[0] == "idx" and b[3]):
+                    continue
+                i = b[3][-1]
+                while isinstance(i, tuple) and i[0] == "cast":
+                    i = i[3]
+                n += 1
+                ok, why = False, "slot index %s is not related to an element count" % DR.fmt_term(i)
+                if isinstance(i, tuple) and i[0] == "ld":
+                    loc = (i[1], i[2])
+                    finals = [x.args[1] for x in pa.events if x.kind == "store" and ptr_key(x.args[0]) == loc]
+                    final = finals[-1] if finals else i
+                    ok = final in plus1(i) or st.rel_gt(final, i)
+                    why = "the slot index is the element count %s, which is %s when the function returns: the new reference lies outside " \
+                          "[0, count) and the release routine will never drop it" % (DR.fmt_term(i), DR.fmt_term(final) if finals else "unchanged")
+                elif isinstance(i, tuple) and i[0] == "op" and i[1] in ("add", "sub") and i[4] in (("c", 1), ("c", (1 << 64) - 1)) and \
+                        isinstance(i[3], tuple) and i[3][0] == "ld" and ((i[1] == "sub") == (i[4] == ("c", 1))):
+                    c = i[3]
+                    finals = [x.args[1] for x in pa.events if x.kind == "store" and ptr_key(x.args[0]) == (c[1], c[2])]
+                    ok = not finals or st.rel_gt(finals[-1], i)
+                    why = "slot count-1 written, but the count is then changed to %s" % (DR.fmt_term(finals[-1]) if finals else "")
+                if not ok:
+                    for t, truth, _ in pa.facts:
+                        if t[0] == "icmp" and i in (t[2], t[3]):
+                            x = t[3] if t[2] == i else t[2]
+                            if isinstance(x, tuple) and x[0] in ("ld", "call") and st.rel_gt(x, i):
+                                ok = True
+                chk.ob(rule, "%s path %d: the slot that receives a counted reference is below the element count at return" % (f.name, k), ok,
+                       e.ins.loc(), fn=f.name, key="%s:covered:%d" % (f.name, e.ins.id), detail="" if ok else why,
+                       path=pa.block_lines() if not ok else None)
+    chk.floor(rule, "slot stores of newly referenced values", n, floor)
 
 
 def _canon(t):
